@@ -103,6 +103,16 @@ def gen_case(rng, params, idx):
         return _exhaustive(4)[idx]
     if idx < params["nexh"]:
         return _exhaustive(5)[idx - params["n4"]]
+    if rng.random() < 0.3:
+        # dense: few classes, two positions, 3-5 distinct equal-priority methods - most calls have several applicable
+        # methods, some dominated by the head of the list and some not
+        hier = gen.gen_hierarchy(rng, rng.randint(3, 4))
+        names = [s["name"] for s in hier] + ["object"]
+        pairs = list(itertools.product(names, repeat=2))
+        methods = [{"mid": i, "pos": [{"n": "a0", "t": a}, {"n": "a1", "t": b}], "kw": [],
+                    "prio": 0 if rng.random() < 0.85 else rng.choice([1, -1]), "kind": "leaf"}
+                   for i, (a, b) in enumerate(rng.sample(pairs, rng.randint(3, 5)))]
+        return {"hier": hier, "methods": methods, "npos": 2, "exh": False, "callseed": rng.randrange(1 << 30), "dense": True}
     hier = gen.gen_hierarchy(rng, rng.randint(2, 8))
     pool = [s["name"] for s in hier] + ["object", "HasFly", "Shape", "Hook"]
     npos = rng.choice([1, 1, 2, 2, 3])
@@ -178,6 +188,8 @@ def check_case(spec, res):
         res.count("programs_exhaustive")
     if spec.get("mode"):
         res.count("programs_assembled_" + spec["mode"])
+    if spec.get("dense"):
+        res.count("programs_dense_two_positions")
     res.sample(spec, "exhaustive" if spec["exh"] else "random")
     sigs = [R.sig_identical(a, b) for a, b in itertools.combinations(methods, 2)]
     if any(sigs):
